@@ -153,23 +153,25 @@ defs: List[Def] = [
         replacement=r'<h$1>$$2</h$1>',
         filter=headerFilter,
     ),
+    # Block images and anchors are escaped by the inline rules of the same syntax
+    # (stripping the backslash here would let the paragraph render them as inline elements).
     # Block image: < image: src | alt >
     # src = $1, alt = $2
     Def(
-        match=re.compile(r'^\\?<image:([^\s|]+)\|(.+?)>$'),
+        match=re.compile(r'^<image:([^\s|]+)\|(.+?)>$'),
         replacement=r'<img src="$1" alt="$2">',
     ),
     # Block image: < image: src >
     # src = $1, alt = $1
     Def(
-        match=re.compile(r'^\\?<image:([^\s|]+?)>$'),
+        match=re.compile(r'^<image:([^\s|]+?)>$'),
         replacement=r'<img src="$1" alt="$1">',
     ),
     # DEPRECATED as of 3.4.0.
     # Block anchor: <<  # id>>
     # id = $1
     Def(
-        match=re.compile(r'^\\?<<#([a-zA-Z][\w\-]*)>>$'),
+        match=re.compile(r'^<<#([a-zA-Z][\w\-]*)>>$'),
         replacement=r'<div id="$1"></div>',
         filter=anchorFilter,
     ),
